@@ -24,6 +24,7 @@ type rsCase struct {
 	Scenario string `json:"scenario"`
 	Lifetime string `json:"lifetime"`
 	Keys     int    `json:"keys"`
+	KeyShape string `json:"keyshape"`
 }
 
 type rsBackend struct {
@@ -57,6 +58,13 @@ func (b *rsBackend) ServeHTTP(rw http.ResponseWriter, req *http.Request) {
 	rw.Header()["X-Multi"] = []string{"one", "two"}
 	rw.WriteHeader(200)
 	_, _ = rw.Write([]byte(fmt.Sprintf("version %d of %s\n%s", v, key, strings.Repeat("payload ", 300))))
+}
+
+func shortKey(k string) string {
+	if len(k) > 200 {
+		return k[:40] + "..." + k[len(k)-10:]
+	}
+	return k
 }
 
 func rsYAML(port int, back string, store string) []byte {
@@ -125,9 +133,14 @@ func Restart(w *world.World, raws []json.RawMessage) ([]interface{}, error) {
 				body      string
 				multi     string
 				delivered bool
+				firstOk   bool
 			}
 			var keys []*before
 			for k := 0; k < c.Keys; k++ {
+				if c.KeyShape == "long" {
+					keys = append(keys, &before{key: fmt.Sprintf("/r/%d/long?tok=%s&part=%d", ci, strings.Repeat("x", 66000), k)})
+					continue
+				}
 				keys = append(keys, &before{key: fmt.Sprintf("/r/%d/%d", ci, k)})
 			}
 			keys = append(keys, &before{key: fmt.Sprintf("/r/%d/nocache", ci)})
@@ -136,6 +149,10 @@ func Restart(w *world.World, raws []json.RawMessage) ([]interface{}, error) {
 				st, h, body, err := rcGet(port1, b.key, "")
 				if err == nil && st == 200 {
 					b.ver, b.body, b.multi, b.delivered = h.Get("X-Ver"), string(body), strings.Join(h["X-Multi"], ","), true
+					v, _ := strconv.Atoi(b.ver)
+					be.mu.Lock()
+					b.firstOk = be.verKey[v] == b.key && strings.HasPrefix(b.body, fmt.Sprintf("version %d of %s\n", v, b.key))
+					be.mu.Unlock()
 				}
 			}
 			switch c.Scenario {
@@ -203,7 +220,7 @@ func Restart(w *world.World, raws []json.RawMessage) ([]interface{}, error) {
 				be.mu.Unlock()
 				st, h, body, err := rcGet(port2, b.key, "")
 				if err != nil {
-					probes = append(probes, map[string]interface{}{"key": b.key, "status": 0, "label": "", "same": false, "fresh": false, "age": 0, "contacts": 0})
+					probes = append(probes, map[string]interface{}{"key": shortKey(b.key), "status": 0, "label": "", "same": false, "fresh": false, "age": 0, "contacts": 0, "firstOk": b.firstOk})
 					continue
 				}
 				be.mu.Lock()
@@ -214,8 +231,8 @@ func Restart(w *world.World, raws []json.RawMessage) ([]interface{}, error) {
 				age, _ := strconv.Atoi(h.Get("Age"))
 				same := h.Get("X-Ver") == b.ver && string(body) == b.body && strings.Join(h["X-Multi"], ",") == b.multi
 				fresh := h.Get("X-Ver") != b.ver && vk == b.key && strings.HasPrefix(string(body), fmt.Sprintf("version %d of %s\n", v, b.key))
-				probes = append(probes, map[string]interface{}{"key": b.key, "status": st, "label": h.Get("X-Status"), "same": same, "fresh": fresh,
-					"age": age, "contacts": c1 - c0})
+				probes = append(probes, map[string]interface{}{"key": shortKey(b.key), "status": st, "label": h.Get("X-Status"), "same": same, "fresh": fresh,
+					"age": age, "contacts": c1 - c0, "firstOk": b.firstOk})
 			}
 			o["probes"] = probes
 		}()
